@@ -199,6 +199,8 @@ export class ProcGenWrapper {
     bindingMapGenList: { [field: string]: BindingMapGen[] },
   ): boolean {
     if (this.bindingMapDisabled) return false
+    // (a field that is not in the list must not find a member of `Object.prototype`)
+    if (!Object.prototype.hasOwnProperty.call(bindingMapGenList, field)) return false
     const updaters = bindingMapGenList[field]
     if (!updaters) return false
     let prevElement: Element | null = null
